@@ -136,6 +136,23 @@ def _pure(e):
     return not any(x.k in ('call', 'incdec', 'assignexpr', 'init') for x in walk_expr(e))
 
 
+def _resolved_decl(raw):
+    """id of the function declaration a clang call expression was resolved to, if it names one"""
+    if not isinstance(raw, dict):
+        return None
+    inner = raw.get('inner') or []
+    if raw.get('kind') not in ('CallExpr', 'CXXMemberCallExpr', 'CXXOperatorCallExpr') or not inner:
+        return None
+    c = inner[0]
+    while c.get('kind') in ('ImplicitCastExpr', 'ParenExpr') and c.get('inner'):
+        c = c['inner'][-1]
+    if c.get('kind') == 'DeclRefExpr':
+        return (c.get('referencedDecl') or {}).get('id')
+    if c.get('kind') == 'MemberExpr':
+        return c.get('referencedMemberDecl')
+    return None
+
+
 class Inliner:
     def __init__(self, tu):
         self.tu = tu
@@ -145,16 +162,24 @@ class Inliner:
             return None
         fs = [f for f in self.tu.fns(e.a[0]) if len(f.params) == len(e.a[2])]
         if len(fs) > 1:
-            # instantiations of one template: the one whose parameter types are those of the arguments, else any of them
-            # when they are the same text
+            # overloads / instantiations of one template: the declaration the compiler resolved this call to; else the one whose
+            # parameter types are those of the arguments, provided that settles it (instantiations that differ in a constant
+            # argument only have the same parameter types and different bodies: those calls are left to the evaluator)
+            did = _resolved_decl(getattr(e, 'raw', None))
+            byid = [f for f in fs if did is not None and f.node.get('id') == did]
+
             def base(t):
                 return (t or '').replace('const', '').replace('&', '').strip()
             exact = [f for f in fs if all(base(pt) == base(getattr(a_, 'ty', None)) or not getattr(a_, 'ty', None)
                                           for (_pn, pt), a_ in zip(f.params, e.a[2]))]
-            if len(exact) >= 1:
+            if byid:
+                fs = byid[:1]
+            elif len(exact) >= 1 and len({repr(f.raw_body) for f in exact}) == 1:
                 fs = exact[:1]
             elif len({repr(f.raw_body) for f in fs}) == 1:
                 fs = fs[:1]
+            else:
+                fs = []
         if len(fs) != 1 or fs[0].name in stack or fs[0].is_virtual:
             return None
         f = fs[0]
